@@ -1,0 +1,9 @@
+//go:build verif
+
+// Contracts for package flags, read by /verif/bin/gvc (contract-based deductive verification).
+// This file contains comments only; it is compiled only under the build tag "verif".
+package flags
+
+// --status implies dry mode: the executor option list is built with WithDry(Dry || Status).
+//@ func (*flagsOption).ApplyToExecutor
+//@   site WithDry#1 requires arg0 == (Dry || Status)                                             [C12]
